@@ -709,3 +709,149 @@ Proof.
   pose proof (vok_all _ Iv Ok) as All. rewrite vleaves_vt in All. split; [|exact All].
   eapply veq_trans; [exact Vx|]. rewrite <- vleaves_vt. apply veval_all; [exact Iv|]. rewrite vleaves_vt. exact All.
 Qed.
+
+(* ---------- C21: the load check and relocation sites ---------- *)
+Definition ExtSitesRecorded (o : objfile) (sites : list (Z * str)) : Prop := ext_sites_recorded_b o sites = true.
+
+Lemma has_external_of_label o n x : lbl_at o n = Some (x, true) -> has_external o = true.
+Proof.
+  unfold has_external. rewrite lbl_at_lookup. destruct (o_sym o) as [st|]; [|discriminate].
+  destruct (lookup n (st_labels st)) as [d|] eqn:E; [|discriminate]. unfold fsym. cbn. intro H.
+  assert (X : sd_external d = true) by congruence. clear H.
+  apply existsb_exists. exists (n, d). split; [eapply lookup_in; eauto|exact X].
+Qed.
+Lemma has_external_label o : ObjInv o -> has_external o = true -> exists n, lbl_at o n = Some (0, true).
+Proof.
+  intros Io. unfold has_external. destruct (o_sym o) as [st|] eqn:E; [|discriminate]. intro H.
+  apply existsb_exists in H. destruct H as ((n, d) & Hin & X). cbn in X.
+  destruct (objinv_sym _ _ Io E) as [S1 S2 S3 S4 S5].
+  exists n. rewrite lbl_at_lookup, E, (in_lookup _ _ _ S1 Hin). unfold fsym. cbn. rewrite X, (S4 _ _ Hin X). reflexivity.
+Qed.
+
+(* an object that records the `.fill` sites of its undefined externals fails the load check *)
+Theorem load_fails o sites : ExtSitesRecorded o sites -> sites <> [] -> load_check o = LoadUnresolvedExternal.
+Proof.
+  unfold ExtSitesRecorded, ext_sites_recorded_b, load_check. intros H Hne.
+  destruct sites as [|(a, n) r]; [contradiction|].
+  destruct (o_sym o) as [st|] eqn:E; [|discriminate].
+  cbn [forallb] in H. apply andb_true_iff in H. destruct H as (H & _). apply andb_true_iff in H. destruct H as (X & _).
+  cbn [snd] in X. apply is_external_lookup in X. destruct X as (d & Ed & Xd).
+  replace (has_external o) with true; [reflexivity|]. symmetry.
+  apply (has_external_of_label o n (sd_addr d)). rewrite lbl_at_lookup, E, Ed. unfold fsym. cbn. rewrite Xd. reflexivity.
+Qed.
+(* ... and the load check passes exactly when no label is external *)
+Theorem load_ok_iff o : ObjInv o -> (load_check o = LoadOk <-> forall n x, lbl_at o n <> Some (x, true)).
+Proof.
+  intro Io. unfold load_check. destruct (has_external o) eqn:H.
+  - split; [discriminate|]. intro K. destruct (has_external_label _ Io H) as (n & Hn). exfalso. eapply K; eauto.
+  - split; [|reflexivity]. intros _ n x Hn. apply has_external_of_label in Hn. congruence.
+Qed.
+
+Lemma ext_sites_pend o sites a n : ObjInv o -> ExtSitesRecorded o sites -> In (a, n) sites -> pend_at o a = Some n.
+Proof.
+  unfold ExtSitesRecorded, ext_sites_recorded_b. intros Io H Hin. rewrite pend_at_find.
+  destruct (o_sym o) as [st|] eqn:E; [|destruct sites; [contradiction|discriminate]].
+  rewrite forallb_forall in H. specialize (H _ Hin). cbn [fst snd] in H. apply andb_true_iff in H. destruct H as (_ & H).
+  apply existsb_exists in H. destruct H as ((a', n') & Hr & K). cbn in K. apply andb_true_iff in K. destruct K as (K1 & K2).
+  apply Z.eqb_eq in K1. apply str_eqb_eq in K2. subst.
+  destruct (objinv_sym _ _ Io E) as [S1 S2 S3 S4 S5]. apply in_rel_find; assumption.
+Qed.
+
+(* after linking in a definer (either order) the word at the site holds the label's address *)
+Theorem link_resolves a b r addr n t : ObjInv a -> ObjInv b -> LinesFit a b ->
+  pend_at a addr = Some n -> lbl_at b n = Some (t, false) ->
+  (link a b = LOk r \/ link b a = LOk r) ->
+  img_at r addr = Some (Some t) /\ pend_at r addr = None.
+Proof.
+  intros Ia Ib Hf Hp Hl Hr.
+  pose proof (objinv_viewinv _ Ia) as Va. pose proof (objinv_viewinv _ Ib) as Vb.
+  assert (Key : forall l, l = [view_of a; view_of b] \/ l = [view_of b; view_of a] -> AllLinkable l ->
+            v_img (vlink_all l) addr = Some (Some t) /\ v_pend (vlink_all l) addr = None).
+  { intros l Hl' Hall.
+    assert (Il : Forall ViewInv l) by (destruct Hl'; subst; (constructor; [assumption|constructor; [assumption|constructor]])).
+    assert (Ina : In (view_of a) l) by (destruct Hl'; subst; cbn; auto).
+    assert (Inb : In (view_of b) l) by (destruct Hl'; subst; cbn; auto).
+    destruct (site_in_all l (view_of a) addr n Il Hall Ina Hp) as (S1 & S2).
+    rewrite (lbl_all_defined l (view_of b) n t Il Hall Inb Hl) in S1, S2. cbn in S1, S2. auto. }
+  destruct Hr as [Hr|Hr].
+  - destruct (link_refines _ _ _ Ia Ib Hf Hr) as ((V1 & V2 & V3) & _).
+    pose proof (link_ok_inv _ _ _ Ia Ib Hr) as L.
+    destruct (Key [view_of a; view_of b]) as (K1 & K2); [auto|cbn; repeat split; auto|].
+    assert (E : veq (vlink (view_of a) (view_of b)) (vlink_all [view_of a; view_of b])).
+    { cbn. apply vlink_cong; [apply veq_refl|apply veq_sym, vlink_empty_r; exact Vb]. }
+    destruct E as (E1 & E2 & E3). cbn [v_img v_pend view_of] in V1, V3. rewrite V1, V3, E1, E3. auto.
+  - destruct (link_refines _ _ _ Ib Ia (linesfit_sym _ _ Hf) Hr) as ((V1 & V2 & V3) & _).
+    pose proof (link_ok_inv _ _ _ Ib Ia Hr) as L.
+    destruct (Key [view_of b; view_of a]) as (K1 & K2); [auto|cbn; repeat split; auto|].
+    assert (E : veq (vlink (view_of b) (view_of a)) (vlink_all [view_of b; view_of a])).
+    { cbn. apply vlink_cong; [apply veq_refl|apply veq_sym, vlink_empty_r; exact Va]. }
+    destruct E as (E1 & E2 & E3). cbn [v_img v_pend view_of] in V1, V3. rewrite V1, V3, E1, E3. auto.
+Qed.
+
+(* the same for a whole set of files linked in any order and bracketing *)
+Theorem link_tree_resolves t r u d addr n x : Forall ObjInv (leaves t) -> total_lines (leaves t) <= usize_max ->
+  lt_eval t = LOk r -> In u (leaves t) -> In d (leaves t) ->
+  pend_at u addr = Some n -> lbl_at d n = Some (x, false) ->
+  img_at r addr = Some (Some x) /\ pend_at r addr = None.
+Proof.
+  intros Hinv Hn E Hu Hd Hp Hl.
+  destruct (link_tree_refines t r Hinv Hn E) as ((V1 & V2 & V3) & All).
+  assert (Il : Forall ViewInv (map view_of (leaves t))).
+  { apply Forall_forall. intros v Hv. apply in_map_iff in Hv. destruct Hv as (o & <- & Ho).
+    apply objinv_viewinv. rewrite Forall_forall in Hinv. auto. }
+  destruct (site_in_all _ (view_of u) addr n Il All (in_map view_of _ _ Hu) Hp) as (S1 & S2).
+  rewrite (lbl_all_defined _ (view_of d) n x Il All (in_map view_of _ _ Hd) Hl) in S1, S2. cbn in S1, S2.
+  cbn [v_img v_pend view_of] in V1, V3. rewrite V1, V3. auto.
+Qed.
+(* a site whose label nobody in the set defines keeps the load check failing *)
+Theorem link_tree_unresolved t r u addr n : Forall ObjInv (leaves t) -> total_lines (leaves t) <= usize_max ->
+  lt_eval t = LOk r -> In u (leaves t) -> pend_at u addr = Some n ->
+  (forall d x, In d (leaves t) -> lbl_at d n <> Some (x, false)) ->
+  load_check r = LoadUnresolvedExternal.
+Proof.
+  intros Hinv Hn E Hu Hp Hnd.
+  destruct (link_tree_refines t r Hinv Hn E) as ((V1 & V2 & V3) & All).
+  assert (Il : Forall ViewInv (map view_of (leaves t))).
+  { apply Forall_forall. intros v Hv. apply in_map_iff in Hv. destruct Hv as (o & <- & Ho).
+    apply objinv_viewinv. rewrite Forall_forall in Hinv. auto. }
+  pose proof (viewinv_all _ Il All) as Iall.
+  destruct (site_in_all _ (view_of u) addr n Il All (in_map view_of _ _ Hu) Hp) as (_ & S2).
+  (* the set does not define n: the site stays pending, so n is external in the result *)
+  assert (D : is_defined (v_lbl (vlink_all (map view_of (leaves t))) n) = None).
+  { destruct (is_defined _) as [x|] eqn:K; [|reflexivity]. exfalso.
+    assert (G : forall l, (forall v, In v l -> forall y, v_lbl v n <> Some (y, false)) -> forall y, v_lbl (vlink_all l) n <> Some (y, false)).
+    { induction l as [|v l' IH]; intros Hl y; [cbn; discriminate|]. cbn [vlink_all fold_right v_lbl vlink].
+      change (fold_right vlink vempty l') with (vlink_all l').
+      assert (A1 := Hl v (or_introl eq_refl)). assert (A2 := IH (fun w Hw => Hl w (or_intror Hw))).
+      destruct (v_lbl v n) as [[av [|]]|], (v_lbl (vlink_all l') n) as [[aw [|]]|] eqn:Ew; cbn; try discriminate;
+        try (intro K'; inversion K'; subst; eapply A1; reflexivity);
+        try (intro K'; inversion K'; subst; eapply A2; reflexivity). }
+    destruct (v_lbl (vlink_all (map view_of (leaves t))) n) as [[y [|]]|] eqn:K2; try discriminate.
+    eapply (G (map view_of (leaves t))); [|exact K2].
+    intros v Hv y0. apply in_map_iff in Hv. destruct Hv as (o & <- & Ho). cbn. eapply Hnd; eauto. }
+  rewrite D in S2. pose proof (pend_external _ _ _ Iall S2) as K.
+  unfold load_check. replace (has_external r) with true; [reflexivity|]. symmetry.
+  apply (has_external_of_label r n 0). cbn [v_lbl view_of] in V2. rewrite V2. exact K.
+Qed.
+
+(* ---------- C26 (linker half): link errors carry spans ---------- *)
+Theorem link_err_nonempty a b k sp : link a b = LErr k sp ->
+  sp <> [] /\ (exists s, hd_error sp = Some s) /\ (k = OverlappingBlocks -> sp = [(0, 0)]) /\ (k = OverlappingLabels -> List.length sp = 2%nat).
+Proof.
+  unfold link. intro H.
+  destruct (insert_blocks (o_blocks b) (o_blocks a)) as [bs|].
+  2:{ inversion H; subst. split; [discriminate|]. split; [eexists; reflexivity|]. split; [reflexivity|discriminate]. }
+  destruct (adj_check bs).
+  3:{ discriminate. }
+  2:{ inversion H; subst. split; [discriminate|]. split; [eexists; reflexivity|]. split; [reflexivity|discriminate]. }
+  destruct (o_sym a) as [sa|], (o_sym b) as [sb|]; try discriminate.
+  unfold link_sym in H.
+  destruct (match st_debug sa, st_debug sb with
+            | Some da, Some db => match debug_link da db with Some d => Some (Some d) | None => None end
+            | Some da, None => Some (Some da)
+            | None, x => Some x end) as [dbg|]; [|discriminate].
+  match type of H with context [merge_labels ?bl ?al ?rel ?q] => destruct (merge_labels bl al rel q) as [L R Q|sp'|] eqn:EM end; try discriminate.
+  - destruct (apply_relocs bs Q); discriminate.
+  - inversion H; subst. pose proof (merge_labels_err _ _ _ _ _ EM) as Hl.
+    destruct sp as [|s1 [|s2 [|s3 r]]]; try discriminate. split; [discriminate|]. split; [eexists; reflexivity|]. split; [discriminate|reflexivity].
+Qed.
